@@ -14,12 +14,18 @@
                               turn: g = .downgrade(), d = [::-1]; printed as a monoidal value)
     dgeqv <ops> <expr> <ops> <expr> -> ok 0|1 | err <class>       (Diagram.__eq__ of two derived values)
     dgboxrepr <box>        -> ok <repr string>                    (Box.downgrade().__repr__)
+    reprpro <ty>           -> ok <repr string>                    (PRO.__repr__ of a PRO value with these objects)
+    proty <n>              -> ok <ty>                              (the objects of PRO(n))
+    protensor <m> <n>      -> ok <n> | err <class>                (len(PRO(m) @ PRO(n)), through upgrade)
+    proslice <n> <i> <j>   -> ok <n> | err <class>                (len(PRO(n)[i:j]); N = omitted bound)
+    proeqv <ty> <ty>       -> ok 0|1                              (monoidal.Ty.__eq__)
   <sexpr> ::= smk <n> <expr>* <optty> <optty> | ssingle <expr> | sadd s s | sthen s s
             | stensor s s | sdagger s          <optty> ::= N | T <ty>
 -/
 import Driver.Codec
 import Model.Repr
 import Model.Downgrade
+import Model.ReprPRO
 
 namespace DV.ReprCmd
 open DV DV.Codec
@@ -72,6 +78,13 @@ def derived (p : List HOp × Expr) : Except Err Diagram :=
   | .error e => .error e
   | .ok d => applyOps p.1 d
 
+def optInt : P (Option Int) := do
+  let t ← tok
+  if t == "N" then pure none
+  else match t.toInt? with
+    | some i => pure (some i)
+    | none => throw s!"bad int {t}"
+
 def handle (cmd : String) (rest : List String) : Option String :=
   match cmd with
   | "repr" => some <| run expr rest fun e => showE e.eval reprDiagram
@@ -97,6 +110,12 @@ def handle (cmd : String) (rest : List String) : Option String :=
       | .error e => "err " ++ toString e
       | .ok x => showE (derived b) fun y => bit (x.eqv y)
   | "dgboxrepr" => some <| run box rest fun b => "ok " ++ reprBoxM b.downgrade
+  | "reprpro" => some <| run ty rest fun t => "ok " ++ reprPRO t
+  | "proty" => some <| run nat rest fun n => "ok " ++ pTy (proTy n)
+  | "protensor" => some <| run (two nat nat) rest fun (m, n) => showE (proTensor m n) toString
+  | "proslice" => some <| run (two nat (two optInt optInt)) rest fun (n, i, j) =>
+      showE (proSlice n i j) toString
+  | "proeqv" => some <| run (two ty ty) rest fun (a, b) => "ok " ++ bit (a == b)
   | _ => none
 
 end DV.ReprCmd
